@@ -23,3 +23,15 @@ package codegen
 //@   ensures [f64] scalar.Kind == ir.ScalarFloat && scalar.Width == 8 ==> is(result, ir.LiteralF64) && same(float64(result.(ir.LiteralF64)), value)
 //@   pure
 //@   nopanic
+//
+// The MSL pipeline-constant path has its own copy of the expression remapper:
+// it must map every handle of every expression kind and leave the rest alone.
+//
+//@ pred rmhm(m, h) := ite(int(h) < len(m), m[int(h)], h)
+//
+//@ func adjustExprHandles
+//@   mode bv
+//@   tags C14 C13
+//@   traverse remap kind ir.ExpressionHandle rmhm(handleMap, $)
+//@   except ExprAlias ExprPhi ExprCompose.Components
+//@   nopanic
